@@ -257,7 +257,8 @@ def placement_matrix(max_depth=2):
         'spec_assigned': ('int q = 0; q = g() ?? 1;', lambda st: st[4]), 'spec_returned_value_position': ('write(1 + (g() ?? 2));', lambda st: st[4]), 'spec_you_operand': ('int q = @y() ?? 1;', lambda st: False), 'spec_defeat_operand': ('int q = 1 ?? !dd();', lambda st: False),
         'spec_nested_call_operand': ('int q = g() + @y() ?? 1;', lambda st: False), 'spec_in_call_arg': ('write(g() ?? 2);', lambda st: st[4]),
         'you_call_in_expr': ('int q = 1 + @y();', lambda st: st[0]), 'defeat_call_in_expr': ('int q = 1 + !dd();', lambda st: st[1]),
-        'defeat_call_in_condition': ('if (!dd() > 0) { }', lambda st: st[1]), 'you_call_in_loop_condition': ('while (@y() > 5) { }', lambda st: st[0]),
+        'defeat_call_in_condition': ('if (!dd() > 0) { }', lambda st: st[1]), 'defeat_call_in_initialiser': ('int q = !dd();', lambda st: st[1]),
+        'defeat_call_in_argument': ('write(!dd());', lambda st: st[1]), 'you_call_in_loop_condition': ('while (@y() > 5) { }', lambda st: st[0]),
     }
     out = []
     for flavour in start:
@@ -770,10 +771,10 @@ def ob_roundtrip_bounded():
 def tasks(tier):
     out = []
     for rule in CTX_RULES:
-        out.append(task(MOD, 'ob_context_threading', ('C06', 'C10') if rule in ('ps_block', 'ps_expr') else ('C06',), label=f'py/grammar/ctx/{rule}', rule=rule, cost=4))
+        out.append(task(MOD, 'ob_context_threading', ('C06', 'C10', 'C03') if rule in ('ps_block', 'ps_expr') else ('C06', 'C03'), label=f'py/grammar/ctx/{rule}', rule=rule, cost=4))          # C03: a defeat call is only accepted where defeat is caught
     out.append(task(MOD, 'ob_guards', ('C06', 'C03'), label='py/grammar/guards', cost=8))
-    out.append(task(MOD, 'ob_ctx_not_rebound', ('C06',), label='py/grammar/ctx-not-rebound'))
-    out.append(task(MOD, 'ob_placement', ('C06', 'C10'), label='py/grammar/placement', max_depth=2 if tier == 'quick' else 3, cost=5 if tier == 'quick' else 60))
+    out.append(task(MOD, 'ob_ctx_not_rebound', ('C06', 'C03'), label='py/grammar/ctx-not-rebound'))
+    out.append(task(MOD, 'ob_placement', ('C06', 'C10', 'C03'), label='py/grammar/placement', max_depth=2 if tier == 'quick' else 3, cost=5 if tier == 'quick' else 60))
     out.append(task(MOD, 'ob_ladder', ('C11',), label='py/grammar/ladder', cost=6))
     out.append(task(MOD, 'ob_roundtrip_bounded', ('C11',), label='py/grammar/roundtrip-bounded', cost=3))
     return out
